@@ -183,7 +183,7 @@ func path(v ssa.Value, d int) string {
 	case *ssa.Parameter:
 		for i, p := range x.Parent().Params {
 			if p == x {
-				return fmt.Sprintf("%s.p%d", fnKey(x.Parent()), i)
+				return fmt.Sprintf("%s.p%d", x.Parent().String(), i)
 			}
 		}
 	case *ssa.FreeVar:
@@ -206,7 +206,7 @@ func path(v ssa.Value, d int) string {
 		if s := SingleStore(x); s != nil && !x.Heap {
 			return path(s, d+1)
 		}
-		return fmt.Sprintf("%s.alloc@%s", fnKey(x.Parent()), x.Name())
+		return fmt.Sprintf("%s.alloc@%s", x.Parent().String(), x.Name()) // register names are unique per function, not per closure family
 	case *ssa.ChangeInterface:
 		return path(x.X, d+1)
 	case *ssa.ChangeType:
@@ -216,10 +216,10 @@ func path(v ssa.Value, d int) string {
 	case *ssa.Global:
 		return "global:" + x.String()
 	case *ssa.Phi, *ssa.Call, *ssa.Extract, *ssa.TypeAssert, *ssa.Lookup, *ssa.IndexAddr, *ssa.Index, *ssa.Next:
-		return fmt.Sprintf("%s.%s", fnKey(v.Parent()), v.Name())
+		return fmt.Sprintf("%s.%s", v.Parent().String(), v.Name())
 	}
 	if v.Parent() != nil {
-		return fmt.Sprintf("%s.%s", fnKey(v.Parent()), v.Name())
+		return fmt.Sprintf("%s.%s", v.Parent().String(), v.Name())
 	}
 	return "?" + v.Name()
 }
